@@ -132,6 +132,15 @@ def normalise(t, verb: str | None = None, lemmas: list | None = None):
             return t[2]
         if t[2] == EMPTY:
             return t[1]
+        # L4: a choice inside a concatenation is a choice between concatenations (cat distributes over ite)
+        if isinstance(t[1], tuple) and t[1][0] == "ite" and len(t[1]) == 4:
+            used("L4")
+            c = t[1]
+            return normalise(("ite", c[1], ("cat", c[2], t[2]), ("cat", c[3], t[2])), verb, lemmas)
+        if isinstance(t[2], tuple) and t[2][0] == "ite" and len(t[2]) == 4:
+            used("L4")
+            c = t[2]
+            return normalise(("ite", c[1], ("cat", t[1], c[2]), ("cat", t[1], c[3])), verb, lemmas)
     if h == "inter":
         a, b = t[1], t[2]
         if name_subset(a, b, None):
